@@ -1,6 +1,7 @@
 package main
 
 import (
+	"encoding/binary"
 	"bytes"
 	"fmt"
 	"io"
@@ -8,6 +9,7 @@ import (
 	"time"
 
 	"github.com/datastax/go-cassandra-native-protocol/frame"
+	"github.com/datastax/go-cassandra-native-protocol/message"
 	"github.com/datastax/go-cassandra-native-protocol/primitive"
 	"verif/internal/gen"
 	"verif/internal/lp"
@@ -330,6 +332,7 @@ func runC05(res *lp.Result) {
 			}
 		}
 	}
+	rawFrameHistories(res, rng)
 	answers, err := lp.Ask(*driverPath, lines)
 	if err != nil {
 		res.Add(lp.Finding{Kind: "disagreement", What: "driver failure: " + err.Error()})
@@ -405,4 +408,107 @@ func (c *chunkedReader) Read(p []byte) (int, error) {
 		p = p[:c.n]
 	}
 	return c.r.Read(p)
+}
+
+// rawFrameHistories: raw frames that are ALIVE TOGETHER and raw frames whose header has been around. (a) Several frames are
+// converted to raw frames first and encoded afterwards — each raw frame must still be its own frame; (b) a raw frame is encoded
+// with whatever Header.BodyLength the shared header holds (another codec wrote it, the caller edited the twin frame): the
+// bytes must declare the length of the body that follows and decode to the frame; (c) a decoded raw frame is forwarded after its
+// converted twin was changed and encoded: the forwarded bytes are the bytes read.
+func rawFrameHistories(res *lp.Result, rng *lp.Rng) {
+	for _, v := range gen.Versions {
+		for _, cs := range compSettings() {
+			if cs.name == "snappy" && v == primitive.ProtocolVersion5 {
+				continue
+			}
+			id := fmt.Sprintf("raw-frame histories v=%d comp=%s seed=%d", v, cs.name, *seed)
+			res.Case(id, true)
+			res.Count("raw-frame-histories")
+			var frames []*frame.Frame
+			var wantBytes [][]byte
+			for _, kind := range []string{"Query", "Prepare", "Supported", "RowsResult"} {
+				g := &gen.G{R: rng, V: v}
+				f := g.Frame(kind)
+				if f == nil {
+					continue
+				}
+				var b bytes.Buffer
+				if cs.codec.EncodeFrame(f.DeepCopy(), &b) != nil {
+					continue
+				}
+				frames = append(frames, f)
+				wantBytes = append(wantBytes, append([]byte{}, b.Bytes()...))
+			}
+			// (a) convert all, then encode all
+			var raws []*frame.RawFrame
+			for _, f := range frames {
+				r, err := cs.codec.ConvertToRawFrame(f.DeepCopy())
+				if err != nil {
+					res.Add(lp.Finding{Kind: "violation", What: "ConvertToRawFrame fails: " + firstWords(err.Error()), Input: id})
+					return
+				}
+				raws = append(raws, r)
+			}
+			for i, r := range raws {
+				var b bytes.Buffer
+				if err := cs.codec.EncodeRawFrame(r, &b); err != nil {
+					res.Add(lp.Finding{Kind: "violation", What: "EncodeRawFrame fails: " + firstWords(err.Error()), Input: id})
+					continue
+				}
+				d, err := cs.codec.DecodeFrame(bytes.NewReader(b.Bytes()))
+				if err != nil || sameButLength(d, mustDecode(cs, wantBytes[i])) != "" {
+					res.Add(lp.Finding{Kind: "violation", What: fmt.Sprintf("raw frame %d of %d converted before any was encoded no longer encodes to its own frame", i+1, len(raws)),
+						Input: id + " bytes=" + hx(b.Bytes()), Impl: fmt.Sprint(err)})
+				}
+			}
+			// (b) a header that has been around
+			for i, f := range frames {
+				r, err := cs.codec.ConvertToRawFrame(f.DeepCopy())
+				if err != nil {
+					continue
+				}
+				r.Header.BodyLength = []int32{0, 1, int32(len(r.Body)) + 2, int32(len(r.Body)) - 2, 1 << 20}[rng.Intn(5)]
+				var b bytes.Buffer
+				if err := cs.codec.EncodeRawFrame(r, &b); err != nil {
+					continue
+				}
+				hl := headerLen(v)
+				enc := b.Bytes()
+				if len(enc) >= hl {
+					if declared := int(int32(binary.BigEndian.Uint32(enc[hl-4 : hl]))); declared != len(enc)-hl {
+						res.Add(lp.Finding{Kind: "violation", What: fmt.Sprintf("EncodeRawFrame writes a header declaring %d body bytes in front of a body of %d (the header's BodyLength field held another value)", declared, len(enc)-hl),
+							Input: id + fmt.Sprintf(" frame %d bytes=%s", i, hx(enc))})
+					}
+				}
+			}
+			// (c) read, change and send the twin, forward the original
+			for i := range frames {
+				r, err := cs.codec.DecodeRawFrame(bytes.NewReader(wantBytes[i]))
+				if err != nil {
+					continue
+				}
+				if twin, err := cs.codec.ConvertFromRawFrame(r); err == nil {
+					// (the twin shares its header with the raw frame: only its message is changed)
+					if q, ok := twin.Body.Message.(*message.Query); ok {
+						q.Query += " AND this_makes_the_body_longer = 1"
+					}
+					var sink bytes.Buffer
+					cs.codec.EncodeFrame(twin, &sink)
+				}
+				var b bytes.Buffer
+				if err := cs.codec.EncodeRawFrame(r, &b); err != nil || !bytes.Equal(b.Bytes(), wantBytes[i]) {
+					res.Add(lp.Finding{Kind: "violation", What: "a raw frame forwarded after its converted twin was changed and encoded is not the bytes that were read",
+						Input: id + fmt.Sprintf(" frame %d bytes=%s", i, hx(wantBytes[i])), Impl: hx(b.Bytes())})
+				}
+			}
+		}
+	}
+}
+
+func mustDecode(cs compSetting, b []byte) *frame.Frame {
+	d, err := cs.codec.DecodeFrame(bytes.NewReader(b))
+	if err != nil {
+		return &frame.Frame{Header: &frame.Header{}, Body: &frame.Body{}}
+	}
+	return d
 }
